@@ -157,18 +157,23 @@ def check_case(case, opts):
         byc = {}
         flagged = {path for _, flags, path in (tuple(x) for x in case.get("sort") or []) if flags}
         for p, c in contents.items():
-            if p in flagged:
-                continue    # per-file flags legitimately change how / whether the file is stored shared
             byc.setdefault(c, []).append(p)
+
+        def loc_of(p):
+            i = img.paths[p]
+            return (i.blocks_start if any(i.block_sizes) else None, tuple(i.block_sizes), i.frag_idx, i.frag_off if i.frag_idx != sqfsimg.NOFRAG else None)
         for c, ps in byc.items():
             if len(ps) < 2 or len(c) == 0:
                 continue
-            locs = set()
-            for p in ps:
-                i = img.paths[p]
-                locs.add((i.blocks_start if any(i.block_sizes) else None, tuple(i.block_sizes), i.frag_idx, i.frag_off if i.frag_idx != sqfsimg.NOFRAG else None))
-            if len(locs) > 1:
-                raise Violation("identical files %r do not share storage: %r" % (ps[:3], sorted(locs, key=repr)[:3]), None, sig="dedup-missing")
+            locs = {p: loc_of(p) for p in ps}
+            # Files with per-file flags (dont_deduplicate, dont_compress, dont_fragment, nosparse) are legitimately stored on their own
+            # or in another form; a later unflagged twin may share with them or with an unflagged one.  So among the unflagged files
+            # of a group at most one (the first one packed in its storage form) may sit at a location nobody else of the group uses.
+            lonely = [p for p in ps if p not in flagged and sum(1 for q in ps if q != p and locs[q] == locs[p]) == 0]
+            if not any(p in flagged for p in ps) and len(set(locs.values())) > 1:
+                raise Violation("identical files %r do not share storage: %r" % (ps[:3], sorted(set(locs.values()), key=repr)[:3]), None, sig="dedup-missing")
+            if len(lonely) > 1:
+                raise Violation("identical files %r do not share storage: %r" % (sorted(lonely)[:3], sorted((locs[p] for p in lonely), key=repr)[:3]), None, sig="dedup-missing")
         # how many collisions did the weak checksum really force?
         mask = (1 << bits) - 1
         blocks, tails = {}, {}
